@@ -39,4 +39,11 @@ PROPS = {
                      "slow / stops) and the cancellation action interleaved by the seeded scheduler over 0-5 events (ok / nullable failure "
                      "/ non-null failure), plus subscribe-phase faults; non-trivial = at least one result was delivered or the context "
                      "was cancelled; distinct = distinct scheduler trace hashes"),
+    "C07": dict(level="exploration", race=True,
+                quick=dict(enum=False, seeds=1500, race_seeds=320), thorough=dict(enum=False, seconds=600),
+                rule="one evaluation = one simulated run of 2-4 client tasks (1-4 operations each: Do, PlanCache.Get+ExecutePlan, "
+                     "ExecutePlan on a shared prepared plan, ValidateDocument, Reset) on one cold schema value, shared plans and a shared "
+                     "plan cache, interleaved by the seeded scheduler at client steps, instrumented callbacks and the library's yield "
+                     "hooks; plain and race builds; non-trivial = at least one context switch between tasks; distinct = distinct "
+                     "scheduler trace hashes"),
 }
